@@ -76,6 +76,9 @@ type tcase struct {
 	Modes   []string `json:"modes"`    // compact: "fast","full"
 	Stretch int      `json:"stretch"`  // compact: every abstract point becomes this many concrete points (file rolling scenario)
 	OnlyPPB int      `json:"only_ppb"` // compact: run only this points-per-block setting (0 = all of exp.ppbs)
+	Split   int      `json:"split"`    // compact: input blocks are cut into concrete blocks of this many points (0 = one block per abstract block)
+	TombAPI string   `json:"tomb_api"` // compact: "" = TSMReader.DeleteRange on the file before the store opens it; "live" = batch delete on the store's live readers
+	Probe   string   `json:"probe"`    // compact, live: stats call made while the tombstones are pending ("", "has", "stats", "fsstats")
 	Salt    int64    `json:"salt"`     // per-case seed component
 }
 
@@ -704,16 +707,20 @@ func (w *workdir) clean() error {
 
 func (w *workdir) remove() { os.RemoveAll(w.dir) }
 
-// writeInputs writes the TSM files of a case (real TSMWriter) for every series, then applies the tombstones through a
-// real TSMReader.  stretch > 1 turns every abstract point (t, id) into `stretch` concrete points (tmap[t]+j, id), j < stretch.
-func writeInputs(dir string, files [][]slot, sers []series, tmap []int64, stretch int) ([]string, error) {
+// writeInputs writes the TSM files of a case (real TSMWriter) for every series and, when tombs is set, applies the
+// tombstones through a real TSMReader opened on the finished file.
+// Refinement of the abstract layout: stretch > 1 turns every abstract point (t, id) into `stretch` concrete points
+// (tmap[t]+j, id), j < stretch; split > 0 cuts every (stretched) block into consecutive concrete blocks of `split` points,
+// so a small abstract series becomes a key with many blocks.  Returns the paths and the largest block written.
+func writeInputs(dir string, files [][]slot, sers []series, tmap []int64, stretch, split int, tombs bool) ([]string, int, error) {
 	var paths []string
+	maxIn := 0
 	for i, file := range files {
 		path := filepath.Join(dir, tsm1.DefaultFormatFileName(i+1, 1)+"."+tsm1.TSMFileExtension)
 		var buf bytes.Buffer
 		w, err := tsm1.NewTSMWriter(&buf)
 		if err != nil {
-			return nil, err
+			return nil, 0, err
 		}
 		for _, se := range sers { // sorted by key
 			for _, blk := range file[se.k].Blocks {
@@ -723,21 +730,83 @@ func writeInputs(dir string, files [][]slot, sers []series, tmap []int64, stretc
 						vals = append(vals, se.vt.mk(tmap[t+1]+int64(j), vOf(se.k+1, i+1, t), se.plane, fileIdx))
 					}
 				}
-				if err := w.Write(se.key, vals); err != nil {
-					return nil, err
+				step := len(vals)
+				if split > 0 && split < step {
+					step = split
+				}
+				for o := 0; o < len(vals); o += step {
+					e := o + step
+					if e > len(vals) {
+						e = len(vals)
+					}
+					if e-o > maxIn {
+						maxIn = e - o
+					}
+					if err := w.Write(se.key, vals[o:e]); err != nil {
+						return nil, 0, err
+					}
 				}
 			}
 		}
 		if err := w.WriteIndex(); err != nil {
-			return nil, err
+			return nil, 0, err
 		}
 		if err := w.Close(); err != nil {
-			return nil, err
+			return nil, 0, err
 		}
 		if err := os.WriteFile(path, buf.Bytes(), 0o644); err != nil {
-			return nil, err
+			return nil, 0, err
 		}
 		paths = append(paths, path)
+		hasTomb := false
+		for _, sl := range file {
+			hasTomb = hasTomb || len(sl.Tombs) > 0
+		}
+		if !hasTomb || !tombs {
+			continue
+		}
+		f, err := os.Open(path)
+		if err != nil {
+			return nil, 0, err
+		}
+		r, err := tsm1.NewTSMReader(f)
+		if err != nil {
+			f.Close()
+			return nil, 0, err
+		}
+		for k, sl := range file {
+			ks := keysOf(sers, k)
+			for _, tr := range sl.Tombs {
+				if err := r.DeleteRange(ks, tmap[tr[0]+1], tmap[tr[1]+1]+int64(stretch-1)); err != nil {
+					r.Close()
+					return nil, 0, err
+				}
+			}
+		}
+		if err := r.Close(); err != nil {
+			return nil, 0, err
+		}
+	}
+	return paths, maxIn, nil
+}
+
+func keysOf(sers []series, k int) [][]byte {
+	var ks [][]byte
+	for _, se := range sers {
+		if se.k == k {
+			ks = append(ks, se.key)
+		}
+	}
+	return ks
+}
+
+// liveTombstones adds the tombstones of a case the way Engine.deleteSeriesRange does: on the readers the FileStore
+// already serves (the same readers the compactor is handed afterwards, no reopen), through the batch API
+// BatchDelete -> DeleteRange ... -> Commit.  While the tombstones are pending (written but not committed) another
+// goroutine of the engine may ask the reader or the store for statistics (compaction planner, metrics); probe makes
+// that call at exactly this point.
+func liveTombstones(fs *tsm1.FileStore, paths []string, files [][]slot, sers []series, tmap []int64, stretch int, probe string) error {
+	for i, file := range files {
 		hasTomb := false
 		for _, sl := range file {
 			hasTomb = hasTomb || len(sl.Tombs) > 0
@@ -745,34 +814,39 @@ func writeInputs(dir string, files [][]slot, sers []series, tmap []int64, stretc
 		if !hasTomb {
 			continue
 		}
-		f, err := os.Open(path)
+		r, err := fs.TSMReader(paths[i])
 		if err != nil {
-			return nil, err
+			return err
 		}
-		r, err := tsm1.NewTSMReader(f)
-		if err != nil {
-			f.Close()
-			return nil, err
+		if r == nil {
+			return fmt.Errorf("file store does not serve %s", paths[i])
 		}
+		batch := r.BatchDelete()
 		for k, sl := range file {
-			var ks [][]byte
-			for _, se := range sers {
-				if se.k == k {
-					ks = append(ks, se.key)
-				}
-			}
+			ks := keysOf(sers, k)
 			for _, tr := range sl.Tombs {
-				if err := r.DeleteRange(ks, tmap[tr[0]+1], tmap[tr[1]+1]+int64(stretch-1)); err != nil {
-					r.Close()
-					return nil, err
+				if err := batch.DeleteRange(ks, tmap[tr[0]+1], tmap[tr[1]+1]+int64(stretch-1)); err != nil {
+					batch.Rollback()
+					r.Unref()
+					return err
 				}
 			}
 		}
-		if err := r.Close(); err != nil {
-			return nil, err
+		switch probe {
+		case "has":
+			r.HasTombstones()
+		case "stats":
+			r.TombstoneStats()
+		case "fsstats":
+			fs.Stats()
+		}
+		err = batch.Commit()
+		r.Unref()
+		if err != nil {
+			return err
 		}
 	}
-	return paths, nil
+	return nil
 }
 
 func openStore(dir string) (*tsm1.FileStore, error) {
@@ -987,7 +1061,7 @@ func runRead(c *tcase, env *rt.Env) rt.Result {
 		if err := wd.clean(); err != nil {
 			return rt.Infra(err.Error())
 		}
-		if _, err := writeInputs(wd.dir, c.C.Files, sers, tmap, 1); err != nil {
+		if _, _, err := writeInputs(wd.dir, c.C.Files, sers, tmap, 1, 0, true); err != nil {
 			return rt.Infra("write inputs: " + err.Error())
 		}
 		fs, err := openStore(wd.dir)
@@ -1181,9 +1255,16 @@ func runCompact(c *tcase, env *rt.Env) rt.Result {
 	for _, cn := range c.Conc {
 		tmap := concretise(cn, n, false, rng)
 		if stretch > 1 { // room for the stretched copies between abstract timestamps
+			base := int64(0)
+			switch cn {
+			case "lo":
+				base = models.MinNanoTime + 2*int64(stretch)
+			case "hi":
+				base = models.MaxNanoTime - 2*int64(stretch)*int64(n)
+			}
 			tmap = make([]int64, n)
 			for i := range tmap {
-				tmap[i] = int64(i-1) * int64(stretch) * 2
+				tmap[i] = base + int64(i-1)*int64(stretch)*2
 			}
 		}
 		sers, err := mkSeries(rng, nkeys, c.Types, 2)
@@ -1193,13 +1274,20 @@ func runCompact(c *tcase, env *rt.Env) rt.Result {
 		if err := wd.clean(); err != nil {
 			return rt.Infra(err.Error())
 		}
-		paths, err := writeInputs(wd.dir, c.C.Files, sers, tmap, stretch)
+		live := c.TombAPI == "live"
+		paths, maxIn, err := writeInputs(wd.dir, c.C.Files, sers, tmap, stretch, c.Split, !live)
 		if err != nil {
 			return rt.Infra("write inputs: " + err.Error())
 		}
 		fs, err := openStore(wd.dir)
 		if err != nil {
 			return rt.Infra("open file store: " + err.Error())
+		}
+		if live {
+			if err := liveTombstones(fs, paths, c.C.Files, sers, tmap, stretch, c.Probe); err != nil {
+				fs.Close()
+				return rt.Infra("live tombstones: " + err.Error())
+			}
 		}
 		comp := tsm1.NewCompactor()
 		comp.Dir = wd.dir
@@ -1226,7 +1314,7 @@ func runCompact(c *tcase, env *rt.Env) rt.Result {
 					return rt.Infra("unknown compaction mode " + mode)
 				}
 				evals++
-				tag := fmt.Sprintf("Compact%s ppb=%d conc=%s%v stretch=%d", title(mode), ppb, cn, tmap, stretch)
+				tag := fmt.Sprintf("Compact%s ppb=%d conc=%s%v stretch=%d split=%d tombstones=%s/%s", title(mode), ppb, cn, tmap, stretch, c.Split, c.TombAPI, c.Probe)
 				fail := func(msg string, got, want interface{}) rt.Result {
 					comp.Close()
 					fs.Close()
@@ -1249,14 +1337,24 @@ func runCompact(c *tcase, env *rt.Env) rt.Result {
 				if len(outFiles) > 1 {
 					multiOut = true
 				}
-				limit := c.Exp.Limit[j] * stretch
-				if stretch > 1 && limit < ppb {
-					limit = ppb
+				// bound of the spec, Limit = max(ppb, largest input block), under the refinement (stretch, split)
+				limit := ppb
+				if maxIn > limit {
+					limit = maxIn
+				}
+				if stretch == 1 && c.Split == 0 && limit != c.Exp.Limit[j] {
+					comp.Close()
+					fs.Close()
+					return rt.Infra(fmt.Sprintf("block bound %d differs from the spec's %d", limit, c.Exp.Limit[j]))
 				}
 				msg, d := checkOutput(outs, sers, want, limit)
 				drift = append(drift, d...)
 				if msg != "" {
-					return fail(msg, describeOut(outs), describeWant(sers, want))
+					r := fail(msg, describeOut(outs), describeWant(sers, want))
+					if strings.Contains(msg, "differs from LWW(inputs)") && blockOrderInversion(c.C.Files, stretch, c.Split) {
+						r.Patterns = append(r.Patterns, "stable_sort_nontransitive_block_order")
+					}
+					return r
 				}
 				for _, of := range outFiles {
 					os.Remove(of)
@@ -1272,10 +1370,77 @@ func runCompact(c *tcase, env *rt.Env) rt.Result {
 	for k := 0; k < nkeys && !nt; k++ {
 		nt = overlapping(c.C.Files, k)
 	}
-	if stretch > 1 {
+	if stretch > 1 && c.Split == 0 {
 		nt = multiOut
 	}
+	if c.Split > 0 { // many-blocks refinement: some key has more than 12 input blocks (sort.Sort stops being an insertion sort)
+		nt = false
+		for k := 0; k < nkeys; k++ {
+			nb := 0
+			for _, f := range c.C.Files {
+				for _, b := range f[k].Blocks {
+					nb += (len(b)*stretch + c.Split - 1) / c.Split
+				}
+			}
+			nt = nt || (nb > 12 && overlapping(c.C.Files, k))
+		}
+	}
 	return rt.Result{OK: true, Evals: evals, Nontrivial: nt, Drift: uniq(drift)}
+}
+
+// blockOrderInversion is the predicate of the known finding "stable_sort_nontransitive_block_order" over a failing input: tsmBatchKeyIterator orders the blocks
+// of a key with sort.Stable and blocks.Less ("a lies entirely before b"), which is not a strict weak order.  Up to 20
+// blocks sort.Stable is one insertion sort and overlapping blocks keep their file order; beyond that its merge phase can
+// put a block of a newer file before an overlapping block of an older file, and the older value then wins.  The
+// predicate replays exactly that sort on the block time ranges of the input (file by file, as the iterator collects
+// them) and reports whether such an inversion appears for some key.
+type blkRange struct {
+	file     int
+	min, max int64
+}
+type blkRanges []blkRange
+
+func (a blkRanges) Len() int           { return len(a) }
+func (a blkRanges) Swap(i, j int)      { a[i], a[j] = a[j], a[i] }
+func (a blkRanges) Less(i, j int) bool { return a[i].min < a[j].min && a[i].max < a[j].min }
+
+func blockOrderInversion(files [][]slot, stretch, split int) bool {
+	if len(files) == 0 {
+		return false
+	}
+	for k := range files[0] {
+		var bl blkRanges
+		for i, f := range files {
+			for _, b := range f[k].Blocks {
+				var ts []int64
+				for _, t := range b {
+					for j := 0; j < stretch; j++ {
+						ts = append(ts, t*int64(stretch)*2+int64(j))
+					}
+				}
+				step := len(ts)
+				if split > 0 && split < step {
+					step = split
+				}
+				for o := 0; o < len(ts); o += step {
+					e := o + step
+					if e > len(ts) {
+						e = len(ts)
+					}
+					bl = append(bl, blkRange{i, ts[o], ts[e-1]})
+				}
+			}
+		}
+		sort.Stable(bl)
+		for i := range bl {
+			for j := i + 1; j < len(bl); j++ {
+				if bl[i].file > bl[j].file && bl[i].min <= bl[j].max && bl[j].min <= bl[i].max {
+					return true
+				}
+			}
+		}
+	}
+	return false
 }
 
 func describeOut(outs [][]outKey) string {
